@@ -237,6 +237,7 @@ bool Table::OnBuildFinish() {
   string_table_builder_->Dump(image, image_size);
   metadata_->string_table = image;
   metadata_->string_table_size = image_size;
+  RIME_VERIF_CRASHPOINT("Table::OnBuildFinish:end");
   return true;
 }
 
@@ -337,6 +338,7 @@ bool Table::Build(const Syllabary& syllabary,
   metadata_->dict_file_checksum = dict_file_checksum;
   metadata_->num_syllables = num_syllables;
   metadata_->num_entries = num_entries;
+  RIME_VERIF_CRASHPOINT("Table::Build:metadata-fields");
 
   if (!OnBuildStart()) {
     return false;
@@ -354,6 +356,7 @@ bool Table::Build(const Syllabary& syllabary,
     }
   }
   metadata_->syllabary = syllabary_;
+  RIME_VERIF_CRASHPOINT("Table::Build:syllabary");
 
   LOG(INFO) << "creating table index.";
   index_ = BuildIndex(vocabulary, num_syllables);
@@ -362,14 +365,17 @@ bool Table::Build(const Syllabary& syllabary,
     return false;
   }
   metadata_->index = index_;
+  RIME_VERIF_CRASHPOINT("Table::Build:index");
 
   if (!OnBuildFinish()) {
     return false;
   }
+  RIME_VERIF_CRASHPOINT("Table::Build:string-table");
 
   // at last, complete the metadata
   std::strncpy(metadata_->format, kTableFormatLatest,
                table::Metadata::kFormatMaxLength);
+  RIME_VERIF_CRASHPOINT("Table::Build:format-tag");
   return true;
 }
 
@@ -402,6 +408,7 @@ table::HeadIndex* Table::BuildHeadIndex(const Vocabulary& vocabulary,
       node.next_level = reinterpret_cast<table::PhraseIndex*>(next_level_index);
     }
   }
+  RIME_VERIF_CRASHPOINT("Table::BuildHeadIndex:end");
   return index;
 }
 
@@ -439,6 +446,7 @@ table::TrunkIndex* Table::BuildTrunkIndex(const Code& prefix,
       }
     }
   }
+  RIME_VERIF_CRASHPOINT("Table::BuildTrunkIndex:end");
   return index;
 }
 
@@ -470,6 +478,7 @@ table::TailIndex* Table::BuildTailIndex(const Code& prefix,
               dest.extra_code.begin());
     BuildEntry(*src, &dest.entry);
   }
+  RIME_VERIF_CRASHPOINT("Table::BuildTailIndex:end");
   return index;
 }
 
@@ -501,6 +510,7 @@ bool Table::BuildEntryList(const ShortDictEntryList& src,
     if (!BuildEntry(**d, &dest->at[i]))
       return false;
   }
+  RIME_VERIF_CRASHPOINT("Table::BuildEntryList:end");
   return true;
 }
 
